@@ -33,8 +33,12 @@ EPS_Q = [1, 10 ** 6]
 # ------------------------------------------------------------------------------------------------
 # grids
 
-def grid_spec(m, extra_pad=0, file_centres=False):
+def grid_spec(m, extra_pad=0, file_centres=False, xyz_only=False):
     gs = c11.grid_spec(m, extra_pad)
+    if xyz_only:
+        gs["xyz_only"] = True
+        gs["xyz"] = [list(p) for p in m.nodes]
+        return gs
     if file_centres:
         # centres "from the file": an interior point of each face that is not the centroid
         fl, fa, fx, fy, fz = [], [], [], [], []
@@ -50,9 +54,127 @@ def grid_spec(m, extra_pad=0, file_centres=False):
 
 def mk_grid(gs):
     import uxarray as ux
+    if gs.get("xyz_only"):
+        # the source supplies Cartesian node coordinates only: lon/lat of every kind are derived by the library
+        import xarray as xr
+        from uxarray.conventions import ugrid
+        ds = xr.Dataset()
+        for j, nm in enumerate(("node_x", "node_y", "node_z")):
+            ds[nm] = xr.DataArray(np.array([p[j] for p in gs["xyz"]], dtype=float), dims=["n_node"])
+        ds["face_node_connectivity"] = xr.DataArray(np.array(gs["table"], dtype=np.intp), dims=["n_face", "n_max_face_nodes"],
+                                                    attrs=dict(ugrid.FACE_NODE_CONNECTIVITY_ATTRS))
+        return ux.Grid(ds, source_grid_spec="UGRID")
     kw = {k: np.array(v, dtype=float) for k, v in gs.get("face", {}).items()}
     return ux.Grid.from_topology(np.array(gs["lon"], dtype=float), np.array(gs["lat"], dtype=float),
                                  np.array(gs["table"], dtype=np.intp), fill_value=FILL, **kw)
+
+
+def _mp_norm(v):
+    n = mp.sqrt(sum(a * a for a in v))
+    return tuple(a / n for a in v)
+
+
+class TruthData:
+    """where the elements truly are, independent of what the library derives: nodes as the source gives
+    them (lon/lat, or xyz for Cartesian-only sources); face centres as supplied by the file, else the
+    normalised mean of the corner directions; edge centres the normalised mid-point of the two end nodes
+    (the edge list itself is read from the grid - C02 owns it).  Unit vectors, 30 digits."""
+
+    def __init__(self, g, gs):
+        if gs.get("xyz_only"):
+            node = [_mp_norm(tuple(mp.mpf(float(a)) for a in p)) for p in gs["xyz"]]
+        else:
+            node = [c11.unit_vec(mp.radians(mp.mpf(float(la))), mp.radians(mp.mpf(float(lo)))) for lo, la in zip(gs["lon"], gs["lat"])]
+        if "face" in gs:
+            face = [c11.unit_vec(mp.radians(mp.mpf(float(la))), mp.radians(mp.mpf(float(lo))))
+                    for lo, la in zip(gs["face"]["face_lon"], gs["face"]["face_lat"])]
+        else:
+            face = []
+            for row in gs["table"]:
+                cs = [node[i] for i in row if i != FILL]
+                face.append(_mp_norm(tuple(mp.fsum(c[a] for c in cs) / len(cs) for a in range(3))))
+        en = np.asarray(g.edge_node_connectivity.values)
+        edge = [_mp_norm(tuple((node[int(a)][k] + node[int(b)][k]) / 2 for k in range(3))) for a, b in en]
+        self.unit = {"nodes": node, "face centers": face, "edge centers": edge}
+        self.xyz = self.unit
+        self.n = {k: len(v) for k, v in self.unit.items()}
+        self.f = {k: [[float(mp.degrees(mp.atan2(u[1], u[0]))) for u in v], [float(mp.degrees(mp.asin(max(-1, min(1, u[2]))))) for u in v],
+                      [float(u[0]) for u in v], [float(u[1]) for u in v], [float(u[2]) for u in v]] for k, v in self.unit.items()}
+
+
+def latlon_mesh(ring_lats, nlon, poles, lon0=0.0, name="latlon"):
+    """rings of nlon nodes at the given latitudes (south to north); poles=False: one polygon per pole
+    (a FACE centred exactly on each pole); poles=True: a node exactly on each pole and a fan of triangles"""
+    nodes, faces = [], []
+    for la in ring_lats:
+        for j in range(nlon):
+            lo = math.radians(lon0 + 360.0 * j / nlon)
+            a = math.radians(la)
+            nodes.append((math.cos(a) * math.cos(lo), math.cos(a) * math.sin(lo), math.sin(a)))
+    R = len(ring_lats)
+
+    def idx(r, j):
+        return r * nlon + (j % nlon)
+    for r in range(R - 1):
+        for j in range(nlon):
+            faces.append([idx(r, j), idx(r, j + 1), idx(r + 1, j + 1), idx(r + 1, j)])
+    if poles:
+        sp, npole = len(nodes), len(nodes) + 1
+        nodes += [(0.0, 0.0, -1.0), (0.0, 0.0, 1.0)]
+        for j in range(nlon):
+            faces.append([sp, idx(0, j + 1), idx(0, j)])
+            faces.append([npole, idx(R - 1, j), idx(R - 1, j + 1)])
+    else:
+        faces.append([idx(0, j) for j in reversed(range(nlon))])
+        faces.append([idx(R - 1, j) for j in range(nlon)])
+    return meshgen.Mesh(nodes, faces, True, "%s%s-%dx%d" % (name, "-polenodes" if poles else "-polefaces", R, nlon))
+
+
+def refined_mesh(rng):
+    """a coarse polyhedron with a refined patch: very long (60-90 deg) and very short edges side by side"""
+    m = meshgen._poly(rng.choice(["cube", "octa", "prism3", "prism5"]))
+    for _ in range(rng.randrange(2, 5)):
+        meshgen.stellate(m, rng)
+    for _ in range(rng.randrange(3, 8)):
+        meshgen.subdivide_edge(m, rng)
+        if rng.random() < 0.5:
+            # shorten further: subdivide one of the freshly created short edges again
+            meshgen.subdivide_edge(m, rng)
+    meshgen.rotate(m, meshgen.rotation_matrix(rng, "random"))
+    meshgen.renumber(m, rng)
+    m.name = "refined:" + m.name
+    m.closed = True
+    return m
+
+
+def bisector_mesh(rng, sd, npts=30):
+    """destination whose NODES sit close to the bisector between a source element and its nearest
+    neighbour of the same kind (offset 0.4% .. 10% of their separation to either side: outside the tie
+    margin, inside any noticeable distortion of the metric)"""
+    pts = []
+    kinds = [k for k in KINDS if sd.n[k] >= 2]
+    while len(pts) < npts and kinds:
+        kind = rng.choice(kinds)
+        U = sd.unit[kind]
+        i = rng.randrange(len(U))
+        ci = [float(a) for a in U[i]]
+        best, cj = None, None
+        for j, u in enumerate(U):
+            if j != i:
+                d = sum((ci[a] - float(u[a])) ** 2 for a in range(3))
+                if d > 1e-12 and (best is None or d < best):
+                    best, cj = d, [float(a) for a in u]
+        if cj is None:
+            continue
+        eps = rng.choice([0.004, -0.004, 0.02, -0.02, 0.1, -0.1])
+        p = [(ci[a] + cj[a]) / 2 + eps * (ci[a] - cj[a]) for a in range(3)]
+        nrm = math.sqrt(sum(a * a for a in p))
+        if nrm > 1e-6:
+            pts.append(tuple(a / nrm for a in p))
+    while len(pts) % 3:
+        pts.append(meshgen._norm((rng.gauss(0, 1), rng.gauss(0, 1), rng.gauss(0, 1))))
+    faces = [[3 * t, 3 * t + 1, 3 * t + 2] for t in range(len(pts) // 3)]
+    return meshgen.Mesh(pts, faces, False, "bisector-points")
 
 
 def dist_table(dd, dkind, sd, skind, coord_type):
@@ -283,14 +405,34 @@ def gen_pairs(ck):
     for s, d, note in fixed:
         gs = grid_spec(s, file_centres=rng.random() < 0.3)
         pairs.append((gs, gs if note == "same" else grid_spec(d), note))
+    # elements EXACTLY on the poles, both hemispheres: faces centred on +-pole (polygon caps), nodes on
+    # +-pole (fans), and the dual of the cap mesh (nodes on the poles); sources given by lon/lat and by
+    # Cartesian coordinates only (every lon/lat then derived by the library)
+    caps = latlon_mesh([-60.0, 60.0], 4, poles=False)
+    caps3 = latlon_mesh([-70.0, 0.0, 70.0], rng.choice([3, 5, 6]), poles=False, lon0=rng.uniform(0, 60))
+    fans = latlon_mesh([-80.0, -70.0, 70.0, 80.0], 5, poles=True, lon0=rng.uniform(0, 60))
+    fans2 = latlon_mesh([-85.0, 85.0], 6, poles=True)
+    dualcaps = meshgen.dual(latlon_mesh([-50.0, 50.0], 5, poles=False))
+    dualcaps.name = "dual-of-polefaces"
+    polar = [(caps, fans), (caps3, fans2), (fans, caps3), (dualcaps, fans2), (caps, caps), (fans2, dualcaps)]
+    for s, d in polar:
+        xo = rng.random() < 0.5
+        gs = grid_spec(s, xyz_only=xo)
+        pairs.append((gs, gs if s is d else grid_spec(d, xyz_only=rng.random() < 0.5), "same" if s is d else "polar"))
+    # strongly non-uniform edge lengths; destination points near the bisectors between neighbouring elements
+    for _ in range(3 if quick else 40):
+        pairs.append((grid_spec(refined_mesh(rng), xyz_only=rng.random() < 0.3), None, "bisector"))
     n = 20 if quick else 600
     for i in range(n):
         s = meshgen.gen_mesh(rng, max_ops=rng.choice([1, 2, 4, 6]))
         if len(s.faces) + len(s.nodes) > 90:
             s = meshgen.gen_mesh(rng, max_ops=2)
         gs = grid_spec(s, extra_pad=rng.choice([0, 1]), file_centres=rng.random() < 0.35)
-        if rng.random() < 0.3:
+        u = rng.random()
+        if u < 0.25:
             pairs.append((gs, gs, "same"))
+        elif u < 0.5:
+            pairs.append((gs, None, "bisector"))
         else:
             d = meshgen.gen_mesh(rng, max_ops=rng.choice([0, 2, 4]))
             pairs.append((gs, grid_spec(d), ""))
@@ -311,6 +453,8 @@ def gen_cases(ck, gs_src, gs_dst, note, sd, per_pair):
         exact = rng.random() < 0.6
         rows, tags, lead = make_rows(rng, n_src, rank, exact, with_identity=(n_src <= 64))
         remap_to = rng.choice(KINDS) if note != "same" or rng.random() < 0.4 else kind
+        if note == "bisector" and rng.random() < 0.75:
+            remap_to = "nodes"
         c = {"src": gs_src, "dst": gs_dst, "same": note == "same", "note": note, "method": method, "kind": kind,
              "remap_to": remap_to, "coord_type": rng.choice(["spherical", "cartesian"]), "rank": rank, "lead": lead,
              "rows": rows, "tags": tags, "exact": exact}
@@ -556,8 +700,8 @@ def run_corpus(ck):
                 c = json.load(open(os.path.join(cdir, fn)))["case"]
                 src = mk_grid(c["src"])
                 dst = src if c.get("same") else mk_grid(c["dst"])
-                sd = GridData(src)
-                dd = sd if c.get("same") else GridData(dst)
+                sd = TruthData(src, c["src"])
+                dd = sd if c.get("same") else TruthData(dst, c["dst"])
                 ck.note_case(("corpus", fn), True)
                 run_case(ck, c, src, dst, sd, dd)
                 n += 1
@@ -571,7 +715,7 @@ def main(ck):
     quick = ck.tier == "quick"
     pairs = gen_pairs(ck)
     ck.cov["rule"] = (
-        "grid pairs: tetrahedron (n_node = n_face), cube, octahedron, icosahedron (more faces than nodes), single triangle as "
+        "positions of the elements are taken independently of the library (nodes as supplied; face centres as supplied or the normalised mean of the corners; edge centres the normalised mid-point), great-circle oracle on the unit sphere.  Grid pairs: lat-lon meshes with FACES centred exactly on both poles, with NODES exactly on both poles (fans, dual of the cap mesh), sources given by lon/lat or by Cartesian coordinates only; coarse polyhedra with refined patches (60-90 degree edges next to short ones) with destination NODES placed 0.4%-10% off the bisector between neighbouring source elements; tetrahedron (n_node = n_face), cube, octahedron, icosahedron (more faces than nodes), single triangle as "
         "destination (one face centre) and as source, identical source/destination, + random sphere tilings (split/subdivide/"
         "stellate/dual/partial, rotated, a fifth with a node on a pole), a third of the sources with face centres supplied "
         "('from the file', not the centroid).  Cases: data on nodes / faces / edges (dimension name says which), rank 1-3, rows = "
@@ -587,9 +731,11 @@ def main(ck):
     n_model = 0
     for pi, (gs_src, gs_dst, note) in enumerate(pairs):
         src = mk_grid(gs_src)
+        sd = TruthData(src, gs_src)
+        if note == "bisector":
+            gs_dst = grid_spec(bisector_mesh(rng, sd))
         dst = src if note == "same" else mk_grid(gs_dst)
-        sd = GridData(src)
-        dd = sd if note == "same" else GridData(dst)
+        dd = sd if note == "same" else TruthData(dst, gs_dst)
         for c in gen_cases(ck, gs_src, gs_dst, note, sd, per_pair):
             key = "%s/%s->%s/%s/rank%d" % (c["method"], KIND_PREFIX[c["kind"]], KIND_PREFIX[c["remap_to"]], c["coord_type"][:4], c["rank"])
             hist[key] = hist.get(key, 0) + 1
@@ -664,7 +810,7 @@ def main(ck):
                    "computed by the oracle; the neighbour search is the brute force of C11 (sklearn validated there and here)"})
     ck.trusted += ["mpmath (30 digits) oracle for great-circle / chord distances", "sklearn BallTree as used by the remap code (oracle = brute force)",
                    "xarray DataArray construction of the result (dims/shape read back)"]
-    ck.assumptions += ["element positions are the coordinates the grids report for the requested coord_type (C04 owns their consistency)",
+    ck.assumptions += ["after the public coordinate mutators of the history cases the element positions are the coordinates the grids then report; everywhere else positions are independent of the library (see rule)",
                        "admissible k: 2 <= k <= number of source elements of the data's kind; admissible power: >= 0",
                        "the element dimension is the last one (the property speaks of leading dimensions)"]
 
@@ -705,7 +851,7 @@ def replay(ck, rp):
         return
     src = mk_grid(c["src"])
     dst = src if c.get("same") else mk_grid(c["dst"])
-    sd = GridData(src)
-    dd = sd if c.get("same") else GridData(dst)
+    sd = TruthData(src, c["src"])
+    dd = sd if c.get("same") else TruthData(dst, c["dst"])
     ck.note_case("replay")
     run_case(ck, c, src, dst, sd, dd)
